@@ -105,10 +105,9 @@ class MetConfig:
     @property
     def n_timesteps(self) -> int:
         """Number of timesteps in the timeseries."""
-        if isinstance(self.ustar, list):
-            return len(self.ustar)
-        if isinstance(self.wind_speed, list):
-            return len(self.wind_speed)
+        for val in (self.ustar, self.mol, self.wind_speed, self.wind_dir):
+            if isinstance(val, list):
+                return len(val)
         return 1
 
     def get_step(self, i: int) -> dict:
@@ -149,9 +148,6 @@ class MetConfig:
             if isinstance(val, list):
                 list_fields[name] = len(val)
 
-        if not list_fields:
-            return  # all scalars, fine
-
         lengths = set(list_fields.values())
         if len(lengths) > 1:
             raise ValueError(
@@ -159,7 +155,7 @@ class MetConfig:
                 f"Got: {list_fields}"
             )
 
-        n = lengths.pop()
+        n = lengths.pop() if lengths else 1  # all scalars: single timestep
         if self.timestamps is not None and len(self.timestamps) != n:
             raise ValueError(
                 f"timestamps length ({len(self.timestamps)}) does not match "
